@@ -89,6 +89,11 @@ func (mod *Module) findIdentityBase(baseStr string) (*resolvedIdentity, []error)
 	var ok bool
 	var errs []error
 
+	if mod == nil {
+		// E.g., a typedef left behind by a text whose top-level
+		// statement was rejected.
+		return &base, []error{fmt.Errorf("can't resolve the base %s, it is not used in a module", baseStr)}
+	}
 	basePrefix, baseName := getPrefix(baseStr)
 	rootPrefix := mod.GetPrefix()
 	source := Source(mod)
